@@ -39,11 +39,15 @@ func RunSCStress(w *tr.Writer, tid int, r *rand.Rand, nBlocks, nCommitters, nRea
 	for i := 0; i < pre; i++ {
 		mk(i).Commit()
 	}
-	// blocks pre..n-1 are committed concurrently, each by exactly one committer, mostly in chain order
-	todo := make(chan int, nBlocks)
+	// blocks pre..n-1 are committed concurrently, mostly in chain order, some of them twice
+	todo := make(chan int, 2*nBlocks)
 	order := []int{}
 	for i := pre; i < nBlocks; i++ {
 		order = append(order, i)
+		if r.Intn(3) == 0 {
+			// a block executed twice: a second cache object of the same block, committed by whoever picks it up next
+			order = append(order, i)
+		}
 	}
 	for i := range order { // light shuffling so that gaps occur
 		if r.Intn(4) == 0 && i+1 < len(order) {
